@@ -37,7 +37,7 @@ func (Engine) Describe() simcore.Description {
 		Real:        []string{"full OsmosisApp: x/lockup keeper, msg server and gRPC querier, its hooks into x/incentives and x/superfluid, osmoutils/sumtree accumulation store, bank, real BeginBlocker/EndBlocker of every module, IAVL commit per block, SDK gas metering"},
 		Stub:        []string{"CometBFT (the simulator supplies header time/height and message order)", "ante/post handlers (sender taken as authenticated, no fees)"},
 		Rule:        "one run = 2-5 owners, 3 denominations (one a byte-prefix of another), 6 durations incl. two 1ns apart; steps are lock / add-to-lock / begin-unlock (full, partial->split) / begin-unlock-all / extend / set-receiver / force-unlock (allow-listed or not) messages, clock advances and bursts of empty blocks across heights divisible by 120, with seeded out-of-gas (gas limit = fraction of the message's own gas use), forced roll-back and node restarts; after every message and block the module balance, accumulation totals, every lock query and balance conservation are compared with a lock-table reference.",
-		Assumptions: []string{"time-based queries are evaluated at instants at least 1ns away from any lock end time or now+duration (the query comments do not fix the meaning of exact equality)", "owners are plain accounts; no superfluid staking in this engine (C11 covers it)"},
+		Assumptions: []string{"time-based queries are evaluated on, and 1ns around, lock end times and the block time (the iterator comments fix equality: before-time inclusive, after-time exclusive); instants equal to now+duration of a not-unlocking lock are skipped (the two query families disagree there)", "owners are plain accounts; no superfluid staking in this engine (C11 covers it)"},
 	}
 }
 
@@ -618,17 +618,19 @@ func (w *world) oracle(op string) bool {
 	ts = append(ts, now.Add(-time.Hour), now.Add(1), now.Add(-1), now.Add(400*24*time.Hour))
 	for _, id := range ids {
 		if l := w.locks[id]; l.unlocking() {
-			ts = append(ts, l.end.Add(-1), l.end.Add(1))
+			// exactly on the end time too: the iterator comments fix the meaning ("if it is the
+			// unlock time it counts as unlocked": before-time inclusive, after-time exclusive)
+			ts = append(ts, l.end.Add(-1), l.end, l.end.Add(1))
 		}
 	}
+	ts = append(ts, now)
 	for _, d := range durations {
 		ts = append(ts, now.Add(d).Add(-1), now.Add(d).Add(1))
 	}
-	critical := map[int64]bool{now.UnixNano(): true}
+	// only "now + duration of a not-unlocking lock" stays ambiguous at equality (the two query families disagree there)
+	critical := map[int64]bool{}
 	for _, id := range ids {
-		if l := w.locks[id]; l.unlocking() {
-			critical[l.end.UnixNano()] = true
-		} else {
+		if l := w.locks[id]; !l.unlocking() {
 			critical[now.Add(l.duration).UnixNano()] = true
 		}
 	}
